@@ -48,7 +48,14 @@ func genC17(r *rand.Rand, n int, emit func(string)) {
 			// ProcessOperation
 			b := canon
 			plabel := "process/create"
-			switch r.Intn(10) {
+			switch r.Intn(11) {
+			case 10:
+				// one member twice (encoding/json merges them; outside the model, the predicate still applies)
+				k := pick(r, []string{"delta", "suffixData", "type"})
+				one, _ := json.Marshal(req[k])
+				txt := string(canon)
+				b = []byte(txt[:len(txt)-1] + `,"` + k + `":` + string(one) + `}`)
+				plabel = "process/member-twice"
 			case 8:
 				// explicit null for members that are optional
 				mod := deepCopy(req).(map[string]interface{})
